@@ -428,7 +428,9 @@ TraceReparse ==
 (*   st.cached : function key -> <<lo, hi>>, the interval (ms) that contains the *)
 (*               instant at which the cached record expires; it is narrowed by   *)
 (*               every query that shows the record alive or gone                 *)
-EmptyStore == [auth |-> {}, cached |-> <<>>]
+\*   st.names  : owner names ever inserted since the last clear (the keys present in the trie): used only
+\*               by the diagnostic rule ImplExact, which binds the Impl lookup model of Store.tla to the code
+EmptyStore == [auth |-> {}, cached |-> <<>>, names |-> {}]
 
 TtlSeconds(ttl) == IF ttl[1] > 0 \/ ttl[2] > 0 THEN 1000000 ELSE ttl[3] * 256 + ttl[4]
 DropKey(f, k) == [x \in DOMAIN f \ {k} |-> f[x]]
@@ -442,12 +444,12 @@ TraceStoreOp ==
   /\ Ev.ev = "StoreOp"
   /\ Rule(l, "NoPanic", Ev.out # "panic", <<"store", Ev.op>>)
   /\ LET k == IF Ev.op = "clear" THEN <<>> ELSE KeyOf(Ev.rec) IN
-     CASE Ev.op = "add_auth" -> st' = [auth |-> st.auth \cup {k}, cached |-> DropKey(st.cached, k)]
+     CASE Ev.op = "add_auth" -> st' = [auth |-> st.auth \cup {k}, cached |-> DropKey(st.cached, k), names |-> st.names \cup {k.name}]
        [] Ev.op = "add_cached" ->
             IF k \in st.auth THEN st' = st       \* a locally registered record stays authoritative
             ELSE LET life == (IF Ev.rec.cf THEN 1 ELSE TtlSeconds(Ev.rec.ttl)) * 1000 IN
-                 st' = [st EXCEPT !.cached = PutKey(@, k, <<Ev.t0 + life, Ev.t1 + life>>)]
-       [] Ev.op = "remove" -> st' = [auth |-> st.auth \ {k}, cached |-> DropKey(st.cached, k)]
+                 st' = [st EXCEPT !.cached = PutKey(@, k, <<Ev.t0 + life, Ev.t1 + life>>), !.names = @ \cup {k.name}]
+       [] Ev.op = "remove" -> st' = [auth |-> st.auth \ {k}, cached |-> DropKey(st.cached, k), names |-> st.names]
        [] Ev.op = "clear" -> st' = EmptyStore
 
 \* a store query over [t0, t1] with one of the four filters returned the records e.recs
@@ -497,12 +499,18 @@ TraceReply ==
        /\ Rule(l, "ReplyLower", lower \subseteq ans, <<"missing", {<<k.name, k.type, k.class>> : k \in lower \ ans}>>)
        /\ Rule(l, "ReplyAddl", \A a \in add : AdditionalOK(st.auth, ans, a),
                <<"additional", {<<a.name, a.type>> : a \in {x \in add : ~AdditionalOK(st.auth, ans, x)}}>>)
+       \* diagnostic (never part of a property's rule set): the answers are exactly those the Impl lookup model
+       \* (trie keys, subtrie only where a node sits at the key) predicts
+       /\ Rule(l, "ImplExact", ans = ImplAnswers(st.auth, st.names, Ev.qd, "lenprefix"),
+               <<"model", {<<k.name, k.type>> : k \in ImplAnswers(st.auth, st.names, Ev.qd, "lenprefix")}, "code", {<<k.name, k.type>> : k \in ans}>>)
        /\ Rule(l, "ReplyMeta",
                /\ p.id = Ev.id /\ Bit(p.fs, 15) /\ p.qd = <<>> /\ p.ns = <<>> /\ Len(p.an) > 0
                /\ Ev.out[3] = (\E i \in 1 .. Len(Ev.qd) : Ev.qd[i].unicast),
                <<"id", p.id, "fs", p.fs, "unicast", Ev.out[3]>>)
      ELSE
-       Rule(l, "ReplyNone", Ev.out[1] = "none" => lower = {}, <<"no-reply-but-must-answer", {<<k.name, k.type>> : k \in lower}>>)
+       /\ Rule(l, "ReplyNone", Ev.out[1] = "none" => lower = {}, <<"no-reply-but-must-answer", {<<k.name, k.type>> : k \in lower}>>)
+       /\ Rule(l, "ImplExact", Ev.out[1] = "none" => ImplAnswers(st.auth, st.names, Ev.qd, "lenprefix") = {},
+               <<"model", {<<k.name, k.type>> : k \in ImplAnswers(st.auth, st.names, Ev.qd, "lenprefix")}, "code", "none">>)
 
 -----------------------------------------------------------------------------
 Init == l = 1 /\ st = EmptyStore
